@@ -118,10 +118,8 @@ func Report(p Prop, plan []Batch, tier string, seed int64, results []Result, nre
 	viol := map[string][]Result{}
 	ks := map[[2]int]bool{}
 	for _, r := range results {
-		if !ks[[2]int{r.Batch, r.K}] {
-			ks[[2]int{r.Batch, r.K}] = true
-			evals++
-		}
+		ks[[2]int{r.Batch, r.K}] = true
+		evals++ // one result = one evaluated case (a scenario may hold several, e.g. probes)
 		switch r.Verdict {
 		case Inconclusive:
 			inconc[r.What]++
@@ -222,6 +220,7 @@ func Report(p Prop, plan []Batch, tier string, seed int64, results []Result, nre
 		"known_findings_hit":  knownHit,
 		"races_observed":      races,
 		"batches":             len(plan),
+		"scenarios":           len(ks),
 	}
 	if s, ok := p.(Summarizer); ok {
 		for k, v := range s.Summarize(results, nrec) {
